@@ -75,6 +75,9 @@ static std::set<std::string> split_set(const std::string &s) {
 }
 
 int main(int argc, char **argv) {
+	// GLib's slice allocator hides use-after-free / double free of GString, GArray ... headers
+	// from AddressSanitizer; route everything through malloc (must happen before GLib is used)
+	setenv("G_SLICE", "always-malloc", 1);
 	if (argc < 2) { fprintf(stderr, "usage: vfprop run|replay|list ...\n"); return 2; }
 	std::string cmd = argv[1];
 	if (cmd == "list") {
